@@ -50,13 +50,13 @@ def gen(rng, tier, ctx):
         if op == "clear" and rng.random() > p_clear * 10:
             op = "create"
         if op == "create":
-            steps.append(["create", rng.choice(["Person", "Employee", "Manager", "Org", "Dept", "Chief"])])
+            steps.append(["create", rng.choice(["Person", "Employee", "Manager", "Org", "Dept", "Chief", "Volunteer", "WorkingStudent"])])
         elif op in ("drop",):
             steps.append(["drop", rng.randrange(1000)])
         elif op == "relate":
             steps.append(["relate", rng.choice(["works_for", "member_of", "members", "sub_org_of"]), rng.randrange(1000), rng.randrange(1000)])
         elif op in ("q_new", "q_build"):
-            steps.append([op, rng.choice(["Person", "Employee", "Manager", "Org", "Dept", "Chief"])])
+            steps.append([op, rng.choice(["Person", "Employee", "Manager", "Org", "Dept", "Chief", "Volunteer", "WorkingStudent"])])
         elif op == "q_eval":
             steps.append(["q_eval", rng.randrange(1000)])
         else:
@@ -68,7 +68,9 @@ def gen(rng, tier, ctx):
 
 
 def witnesses():
-    return {"domainless-query-reevaluation-stale": {"steps": [
+    return {"diamond-subclass-listed-twice": {"steps": [["create", "WorkingStudent"], ["create", "Employee"], ["q_new", "Person"],
+                                                        ["q_new", "Volunteer"]]},
+            "domainless-query-reevaluation-stale": {"steps": [
         ["create", "Person"], ["q_build", "Person"], ["q_eval", 0], ["create", "Person"], ["q_eval", 0]]}}
 
 
